@@ -305,7 +305,9 @@ def prov_rdkit_attrs(repo, tier="quick"):
     fw = repo.function("rdkit:networkx_to_rdkit")
     wfl = fw.flow
     g = ("param", fw.positional_params[0])
-    atoms = [(c, n, wfl.canon(c, n)) for c, n in wfl.calls() if repo.resolve_call(fw, c).name.endswith("Chem.Atom")]
+    from .common import scope_functions
+    scope = scope_functions(repo, fw)
+    atoms = [(c, n, f.flow.canon(c, n)) for f in scope for c, n in f.flow.calls() if repo.resolve_call(f, c).name.endswith("Chem.Atom")]
     need(atoms, "anchor vanished: networkx_to_rdkit no longer creates Chem.Atom", fw)
     for call, nid, ct in atoms:
         a = ct[3][0] if ct[3] else None
@@ -315,7 +317,7 @@ def prov_rdkit_attrs(repo, tier="quick"):
             ok = True
         (obs.append(ob_ok(oid, fw, call, construct="Chem.Atom(props['element'])", instance="to-rdkit:element", reason="element carried over")) if ok else
          obs.append(ob_fail(oid, fw, call, construct="Chem.Atom(%s)" % (show(a) if a else ""), instance="to-rdkit:element", reason="the RDKit atom is not created from the node's element")))
-    charges = [(c, n, wfl.canon(c, n)) for c, n in wfl.calls() if isinstance(c.func, ast.Attribute) and c.func.attr == "SetFormalCharge"]
+    charges = [(c, n, f.flow.canon(c, n)) for f in scope for c, n in f.flow.calls() if isinstance(c.func, ast.Attribute) and c.func.attr == "SetFormalCharge"]
     okc = False
     for call, nid, ct in charges:
         a = ct[3][0] if ct[3] else None
@@ -339,6 +341,12 @@ def prov_rdkit_attrs(repo, tier="quick"):
                 ok = True
             if k[0] == "sub" and k[2] == ("const", "order"):
                 ok = True
+            # for u, v, order in graph.edges(data='order'[, default=1])
+            if k[0] == "sub" and k[2] == ("const", 2) and k[1][0] == "iter":
+                ce = k[1][2]
+                if ce[0] == "call" and ce[2] == ("attr", g, "edges") and dict(ce[4]).get("data", ce[3][0] if ce[3] else None) == ("const", "order") and \
+                        dict(ce[4]).get("default", ("const", 1)) == ("const", 1):
+                    ok = True
         if bt is not None and bt[0] == "sub" and bt[1] == ("modconst", "rdkit:BOND_TYPE_MAP"):
             ok = True
         (obs.append(ob_ok(oid, fw, call, construct="AddBond(..., BOND_TYPE_MAP[edge order])", instance="to-rdkit:order", reason="bond order carried over")) if ok else
@@ -673,6 +681,21 @@ def sent_numeric_attrs(repo, tier="quick"):
                         mg = method_call(c, "get")
                         if mg and mg[2] and mg[2][0][0] == "const":
                             key = mg[2][0][1]
+                        # for n, w in G.nodes(data='weight') / for u, v, o in G.edges(data='order'): the last component is the attribute
+                        if c[0] == "sub" and c[2][0] == "const" and isinstance(c[2][1], int) and c[1][0] == "iter":
+                            ci = c[1][2]
+                            if ci[0] == "call" and ci[2][0] == "attr" and ci[2][2] in ("nodes", "edges"):
+                                dk = dict(ci[4]).get("data", ci[3][0] if ci[3] else None)
+                                if dk is not None and dk[0] == "const" and isinstance(dk[1], str) and c[2][1] == (1 if ci[2][2] == "nodes" else 2):
+                                    key = dk[1]
+                        cga = is_call(c[1], "networkx.get_node_attributes", "networkx.get_edge_attributes") if c[0] == "sub" else None
+                        if cga and len(cga[0]) >= 2 and cga[0][1][0] == "const":
+                            key = cga[0][1][1]
+                        ev_ = elem_of(c)
+                        if ev_ and ev_[0] == "value":
+                            cgv = is_call(strip_wrappers(ev_[1]), "networkx.get_node_attributes", "networkx.get_edge_attributes")
+                            if cgv and len(cgv[0]) >= 2 and cgv[0][1][0] == "const":
+                                key = cgv[0][1][1]
                         if key in NUMERIC_KEYS:
                             bad.append(e)
                             break
@@ -764,12 +787,27 @@ def ord_complete_loops(repo, tier="quick", table=None):
             if n.kind != "for":
                 continue
             it = show(fl.canon(n.ast.iter, n.id))
+            # index.get(key, []) reads like index[key]
+            it = it.replace(".get(each(", "[each(").replace("), [])", ")]") if ".get(each(" in it else it
             if needle in it:
                 found = True
                 ex = early_exit(n.ast)
                 (obs.append(ob_fail(oid, fi, ex[0], construct="%s inside `for ... in %s`" % (type(ex[0]).__name__.lower(), needle), instance=fi.qualname + ":" + needle,
                                     reason="the loop can stop before all elements were visited, but %s" % what)) if ex else
                  obs.append(ob_ok(oid, fi, n.ast, construct="for ... in %s: no break / return" % needle, instance=fi.qualname + ":" + needle, reason=what)))
+        if not found:
+            # a comprehension over the same collection cannot stop early
+            for sub in ast.walk(fi.node):
+                if isinstance(sub, (ast.ListComp, ast.SetComp, ast.DictComp, ast.GeneratorExp)) and id(sub) in cfg.owner:
+                    for g in sub.generators:
+                        try:
+                            it = show(fl.canon(g.iter, cfg.owner[id(sub)]))
+                        except Exception:
+                            continue
+                        if needle in it and not found:
+                            found = True
+                            obs.append(ob_ok(oid, fi, sub, construct="comprehension over %s" % needle, instance=fi.qualname + ":" + needle,
+                                             reason=what + " (a comprehension visits every element)"))
         if not found:
             obs.append(ob_undecided(oid, fi, construct="loop over %s" % needle, instance=fi.qualname + ":" + needle, reason="loop not found (rewritten?)"))
     return obs
@@ -920,6 +958,11 @@ def prov_hcount_bookkeeping(repo, tier="quick"):
                 gs = guards_of(fi, d.node) if d is not None else []
                 arom = [pol for tst, pol, g in gs if "aromatic" in ast.unparse(tst)]
                 decs[(arom[0] if arom else None)] = inner[3][1]
+            elif inner is not None and inner[0] == "binop" and inner[1] == "-" and inner[3][0] == "ifexp" and "aromatic" in show(inner[3][1]) \
+                    and inner[3][2][0] == "const" and inner[3][3][0] == "const":
+                # hcount - (1.5 if <aromatic> else 1)
+                decs[True] = inner[3][2][1]
+                decs[False] = inner[3][3][1]
         ok = decs.get(True) == 1.5 and decs.get(False) == 1
         (obs.append(ob_ok(oid, fi, n.ast, construct="hcount = max(0, hcount - (1.5 if aromatic else 1))", instance="update",
                           reason="aromatic ends lose 1.5 (their share of the ring bond), other ends 1")) if ok else
@@ -1142,11 +1185,18 @@ def prov_after_branch_order(repo, tier="quick"):
         ok = False
         why = "%s = %s" % (ovar, show(v) if v is not None else "<augmented>")
         idx = None
+        # table.get(pattern[i], <current value>) is the membership test and the lookup in one
+        mg = method_call(v, "get") if v is not None else None
+        via_get = False
+        if mg and mg[0][0] == "dict" and len(mg[2]) == 2 and mg[2][0][0] == "sub" and mg[2][0][1] == pattern and \
+                mg[2][1][0] == "var" and mg[2][1][1] == ovar:
+            v = ("sub", mg[0], mg[2][0])
+            via_get = True
         if v is not None and v[0] == "sub" and v[1][0] == "dict" and v[2][0] == "sub" and v[2][1] == pattern:
             idx = v[2][2]
             # a positive membership guard on the same character
             gs = guards_of(fi, d.node)
-            member = False
+            member = via_get
             for test, pol, gid in gs:
                 conj = test.values if isinstance(test, ast.BoolOp) and isinstance(test.op, ast.And) and pol else [test]
                 for cj in conj:
@@ -1319,7 +1369,18 @@ def prov_slash_marks(repo, tier="quick"):
         name = a[1] if a[1] is not None else dict(ct[4]).get("name")
         if a[0] == ("param", fa.positional_params[0]):
             names.append((name, c2))
-    need(names, "anchor vanished: annotate_ez_isomers_cgsmiles does not read node attributes of the molecule", fa)
+    if not names:
+        # no get_node_attributes: the attribute may be read from the node dictionaries directly (attrs[name], name in attrs, .get(name))
+        consts = [x for x in ast.walk(fa.node) if isinstance(x, ast.Constant) and isinstance(x.value, str)]
+        docstring = ast.get_docstring(fa.node) or ""
+        used = [x for x in consts if x.value != docstring]
+        if wname is not None and wname[0] == "const" and any(x.value == wname[1] for x in used):
+            obs.append(ob_ok(oid, fa, construct="node attribute %s read in annotate_ez_isomers_cgsmiles" % show(wname), instance="read-back",
+                             reason="writer and reader of the class marks agree on the attribute name"))
+        else:
+            obs.append(ob_fail(oid, fa, construct="marks written as %s, not read in annotate_ez_isomers_cgsmiles" % (show(wname) if wname else "?"),
+                               instance="read-back", reason="the stereo annotation does not read the attribute the fragment reader writes"))
+        return obs
     hit = [c2 for name, c2 in names if name == wname and wname is not None and wname[0] == "const"]
     if hit:
         obs.append(ob_ok(oid, fa, hit[0], construct="get_node_attributes(molecule, %s)" % show(wname), instance="read-back",
